@@ -189,10 +189,10 @@ def judge_bytes(s, r):
         body = [(o, t.encode("latin-1") + b"\n") for o, t, _nl in hs[k]["body"]]
         old = [(o, t) for o, t in body if o != "+"]
         lead = 0
-        while lead < len(old) and old[lead][0] == " ":
+        while lead < len(body) and body[lead][0] == " ":
             lead += 1
         trail = 0
-        while trail < len(old) - lead and old[-1 - trail][0] == " ":
+        while trail < len(body) - lead and body[-1 - trail][0] == " ":
             trail += 1
         for pos in range(cursor, len(lines) - len(old) + 1):
             ok = True
